@@ -271,3 +271,39 @@ def _(vc):
     vc.ensure("sample_of_the_drawn_contracted_unit_j_q", y.elem([f, MR([(q, Kq), (k, Kk)]), n, d]) == x.elem([f, 0, MR([(j, Kj), (q, Kq)]), n, d]))
     if shape_is(vc, mix, [F, Kq * Kk, N], "mixture_index_shape"):
         vc.ensure("returns_the_drawn_indices", mix.elem([f, MR([(q, Kq), (k, Kk)]), n]) == j)
+
+
+# ------------------------------------------------------------------------------------------------ histories on the fused layers
+def _second_call_uses_current_weights(vc, layer, W, w_shape, x_shape):
+    """sample, the weights take other values, sample again on the SAME layer object: the second draw is from the CURRENT weight tensor"""
+    x1 = vc.tensor("x1", x_shape)
+    exc, _ = vc.raises(lambda: vc.call((layer, "sample"), x1))
+    if exc is not None:
+        return
+    Wt2 = vc.tensor("weight_after_update", w_shape)
+    W.__dict__["__vf_call__"] = lambda: Wt2
+    x2 = vc.tensor("x2", x_shape)
+    exc, _ = vc.raises(lambda: vc.call((layer, "sample"), x2))
+    if exc is not None:
+        vc.ensure("only_refusal_is_for_negative_or_unnormalised_weights", z3.Or(exc == "ValueError", exc == "TypeError"))
+        return
+    draws = vc.I.__dict__.get("categorical_draws", [])
+    vc.ensure("one_draw_per_call", len(draws) == 2)
+    if len(draws) == 2:
+        vc.ensure("second_draw_from_the_current_weights", draws[1][1] is Wt2)
+
+
+@obligation("C15.sample.TorchTuckerLayer.after_weights_changed", "C15", [f"{LO_}:TorchTuckerLayer.sample"])
+def _(vc):
+    F, K, Ko, N, D = (vc.int(n, lo=1) for n in ("F", "K", "Ko", "N", "D"))
+    W, Wt = param(vc, "weight", F, (Ko, K * K))
+    layer = vc.new(f"{LO_}:TorchTuckerLayer", K, Ko, 2, weight=W, semiring=semiring(vc), num_folds=F)
+    _second_call_uses_current_weights(vc, layer, W, (F, Ko, K * K), (F, 2, K, N, D))
+
+
+@obligation("C15.sample.TorchTensorDotLayer.after_weights_changed", "C15", [f"{LO_}:TorchTensorDotLayer.sample"])
+def _(vc):
+    F, Kj, Kq, Kk, N, D = (vc.int(n, lo=1) for n in ("F", "Kj", "Kq", "Kk", "N", "D"))
+    W, Wt = param(vc, "weight", F, (Kk, Kj))
+    layer = vc.new(f"{LO_}:TorchTensorDotLayer", Kj * Kq, Kq * Kk, weight=W, semiring=semiring(vc), num_folds=F)
+    _second_call_uses_current_weights(vc, layer, W, (F, Kk, Kj), (F, 1, Kj * Kq, N, D))
